@@ -112,3 +112,40 @@ Definition feature_map_ok (fac imp : feature_table) (derive_feats : list string)
   && negb (mem_str "verif_hooks" (feature_list "default" imp))
   && forallb (fun kv => negb (mem_str "derive_more-impl/verif_hooks" (snd kv)) && negb (mem_str "verif_hooks" (snd kv))) fac
   && forallb (fun kv => String.eqb (fst kv) "verif_hooks" || negb (mem_str "verif_hooks" (snd kv))) imp.
+
+(** Cargo's feature implication inside ONE manifest: the entries of a feature that are themselves features of the same
+    table (entries `dep:x`, `crate/feature` are not).  [closure] = everything a set of requested features switches on. *)
+Definition implied_once (t : feature_table) (fs : list string) : list string :=
+  flat_map (fun f => filter (fun g => match lookup_feature g t with Some _ => true | None => false end)
+                            (feature_list f t)) fs.
+
+Fixpoint closure_fuel (fuel : nat) (t : feature_table) (fs : list string) : list string :=
+  match fuel with
+  | O => fs
+  | S k =>
+      let more := filter (fun g => negb (mem_str g fs)) (implied_once t fs) in
+      match more with
+      | [] => fs
+      | _ => closure_fuel k t (fs ++ more)
+      end
+  end.
+
+Definition closure (t : feature_table) (fs : list string) : list string := closure_fuel (List.length t) t fs.
+
+(** what a facade feature requests of the impl crate: its `derive_more-impl/<g>` entries, through the facade's own closure *)
+Definition impl_prefix : string := "derive_more-impl/".
+Definition strip_impl (e : string) : option string :=
+  if String.prefix impl_prefix e then Some (String.substring (String.length impl_prefix) (String.length e) e) else None.
+Definition facade_requests (fac : feature_table) (f : string) : list string :=
+  flat_map (fun g => flat_map (fun e => match strip_impl e with Some x => [x] | None => [] end) (feature_list g fac))
+           (closure fac [f]).
+
+(** enabling ONE derive feature of the facade switches on, in the impl crate, exactly that feature (so exactly that
+    feature's derives are registered and, through `pub use derive_more_impl::*`, exposed); `full` switches on exactly
+    the derive features *)
+Definition closure_exact (fac imp : feature_table) (derive_feats : list string) : bool :=
+  forallb (fun f => same_set_str (closure imp (facade_requests fac f)) [f]) derive_feats
+  && forallb (fun f => same_set_str (closure imp [f]) [f]) derive_feats
+  && same_set_str (closure imp (facade_requests fac "full")) derive_feats
+  && same_set_str (closure imp (facade_requests fac "std")) []
+  && same_set_str (closure imp (facade_requests fac "default")) [].
